@@ -95,7 +95,8 @@ let rl_damage a f =
   let st' = if str a "f" "cur" = "cur" then rl_map_cur f st else rl_map_file (z_of_int (int_of_string (str a "f" "0"))) f st in
   rl_state := rl_open (z_of_int !now) st'
 let op_rl_trunc a = rl_damage a (rl_truncate_bytes (z_of_int (num a "k" 0)))
-let op_rl_corrupt a = rl_damage a (rl_set_byte (nat_of_int (num a "k" 0)) (z_of_int (num a "b" 0)))
+let op_rl_corrupt a = rl_damage a (rl_set_byte (nat_of_int (num a "k" 0)) (z_of_int (num a "b" 0)));
+  if num a "lax" 0 <> 0 then emit "rl_corrupt lax"
 
 let op_rl_ls _ =
   let st = !rl_state in
